@@ -64,3 +64,34 @@ Proof.
   intros idx vals. unfold shown_value. split; [reflexivity|]. intros H.
   replace (nth 0 vals 0 =? 0) with false by (symmetry; apply Z.eqb_neq; exact H). reflexivity.
 Qed.
+
+(* ---- Prune on Java legacy stacks: a stack made only of drop-table frames keeps every frame ---- *)
+Lemma prune_root_first_all_droppable (droppable : string -> bool) : forall rl acc,
+  forallb droppable rl = true -> prune_root_first droppable rl false acc = (rev acc ++ rl)%list.
+Proof.
+  induction rl as [|x r IH]; intros acc H; cbn [prune_root_first].
+  - rewrite app_nil_r. reflexivity.
+  - cbn [forallb] in H. apply andb_prop in H. destruct H as [Hx Hr]. rewrite Hx.
+    rewrite (IH (x :: acc) Hr). cbn [rev]. rewrite <- app_assoc. reflexivity.
+Qed.
+
+Lemma prune_stack_all_droppable_lemma : forall droppable names,
+  forallb droppable names = true -> prune_stack droppable names = names.
+Proof.
+  intros droppable names H. unfold prune_stack.
+  assert (Hr : forallb droppable (rev names) = true).
+  { apply forallb_forall. intros x Hx. apply in_rev in Hx. rewrite forallb_forall in H. exact (H x Hx). }
+  rewrite (prune_root_first_all_droppable droppable (rev names) [] Hr). cbn [rev app]. apply rev_involutive.
+Qed.
+
+(* frames are only ever removed from the leaf side: what is shown is a root-side part of the stack *)
+Lemma prune_root_first_prefix (droppable : string -> bool) : forall rl found acc,
+  exists tail, (rev acc ++ rl)%list = (prune_root_first droppable rl found acc ++ tail)%list.
+Proof.
+  induction rl as [|x r IH]; intros found acc; cbn [prune_root_first].
+  - exists []. reflexivity.
+  - destruct (droppable x); [destruct found|].
+    + exists (x :: r). reflexivity.
+    + destruct (IH false (x :: acc)) as [t Ht]. exists t. rewrite <- Ht. cbn [rev]. rewrite <- app_assoc. reflexivity.
+    + destruct (IH true (x :: acc)) as [t Ht]. exists t. rewrite <- Ht. cbn [rev]. rewrite <- app_assoc. reflexivity.
+Qed.
